@@ -483,7 +483,45 @@ fn run_cache_case(c: &Case) -> Result<(), String> {
     match r { Ok(x) => x, Err(_) => Err("PANIC".into()) }
 }
 
+/// character classes (C08): one bracketed class as the only pattern; membership of single chars vs the regex crate
+fn run_class_case(c: &Case) -> Result<(), String> {
+    let r = catch_unwind(AssertUnwindSafe(|| {
+        let p = &c.modes[0].pats[0].p;
+        let re = full(p);
+        let sc = build(&c.modes).map_err(|e| format!("build failed: {e}"))?;
+        for ch in c.input.chars() {
+            let s = ch.to_string();
+            let got = sc.find_iter(&s).next().is_some();
+            let exp = re.is_match(&s);
+            if got != exp {
+                return Err(format!("class {} on {:?}: scnr matches = {}, reference = {}", p, ch, got, exp));
+            }
+        }
+        Ok(())
+    }));
+    match r { Ok(x) => x, Err(_) => Err("PANIC".into()) }
+}
+
+fn gen_class(r: &mut Rng, depth: usize) -> String {
+    const ATOMS: &[&str] = &["a", "b", "c-e", "a-c", "x", "é", "0-9", "b-d", "\\n", "z"];
+    let mut s = String::from("[");
+    if r.below(3) == 0 { s.push('^'); }
+    let n = 1 + r.below(3);
+    for _ in 0..n {
+        if depth > 0 && r.below(3) == 0 { s.push_str(&gen_class(r, depth - 1)); } else { s.push_str(*r.pick(ATOMS)); }
+    }
+    if depth > 0 && r.below(2) == 0 {
+        s.push_str(*r.pick(&["&&", "--", "~~"]));
+        s.push_str(&gen_class(r, depth - 1));
+    }
+    s.push(']');
+    s
+}
+
 fn run_any(c: &Case) -> Result<(), String> {
+    if c.family == "classes" {
+        return run_class_case(c);
+    }
     if c.family == "cache" {
         return run_cache_case(c);
     }
@@ -613,6 +651,11 @@ fn gen_case(family: &str, r: &mut Rng) -> Case {
             let nops = 2 + r.below(5);
             let ops = (0..nops).map(|_| Op::SetMode(r.below(9))).collect();
             Case { family: family.into(), modes: vec![ModeSpec { name: "M0".into(), pats, trans: vec![] }], input, start_offset: 0, ops, with_positions: false }
+        }
+        "classes" => {
+            let p = gen_class(r, 2);
+            Case { family: family.into(), modes: vec![ModeSpec { name: "M0".into(), pats: vec![PatSpec { p, tt: 0, la: None }], trans: vec![] }],
+                   input: "abcdexz0359é\n-^.A".into(), start_offset: 0, ops: vec![], with_positions: false }
         }
         "positions" => {
             let pats = gen_pats(r, false, npat, 0);
